@@ -139,6 +139,17 @@ def doPLincomb (l : Line) : Option String := do
       showCList ((List.range ((bufs.getD k []).length)).map (m' k))
     some ("ok bufs=" ++ "|".intercalate outs)
 
+/-- `front f=<9 bits>` : outcome of the argument checks of `LinearSpace.lincomb`. -/
+def doFront (l : Line) : Option String := do
+  let f ← l.get? "f"
+  let bits := f.toList.map (· == '1')
+  if bits.length ≠ 9 then none
+  let g (i : Nat) := bits.getD i false
+  let r := lincombFront (g 0) (g 1) (g 2) (g 3) (g 4) (g 5) (g 6) (g 7) (g 8)
+  some (match r with
+    | .errOut => "err:out" | .errA => "err:a" | .errX1 => "err:x1" | .errX2NoB => "err:x2nob"
+    | .errB => "err:b" | .errX2 => "err:x2" | .callOne => "call:one" | .callTwo => "call:two")
+
 def handle (l : Line) : Option String :=
   match l.op with
   | "lincomb" => doLincomb l
@@ -146,6 +157,7 @@ def handle (l : Line) : Option String :=
   | "elemop" => doElemOp l
   | "ipow" => doIpow l
   | "plincomb" => doPLincomb l
+  | "front" => doFront l
   | _ => none
 
 def main : IO Unit := driverLoop handle
